@@ -19,11 +19,11 @@ CLAIMED = {
             "Canonical form as a Lean predicate; uniqueness of the canonical form for a point set and equal() <-> set equality "
             "proved for all canonical regions; correspondence + strict canonical-form oracle on every region the library returns "
             "along generated histories.",
-            TB + "Preservation of canonical form by the sweep is proved in C05's module; translate's re-validation step is partial.",
+            TB + "Preservation of canonical form by the sweep, validate and translate (all paths) is proved (C05/C07 modules) and lifted to every region reachable by any history of operations (reachable_canon).",
             TECH, "DESIGN.md 6/C06"),
     "C07": ("proof",
             "contains_point / contains_rectangle / find_box_for_y / not_empty / init_from_image proved against point membership for all "
-            "canonical regions and bitmaps; translate proved on the fast, empty and <=1-rectangle paths (slow path modulo validate); "
+            "canonical regions and bitmaps; translate proved on every path incl. clamping and re-validation (translate_mem, translate_canon); "
             "correspondence + point oracle incl. translations overflowing the coordinate range.",
             TB, TECH, "DESIGN.md 6/C07"),
     "C17": ("proof",
